@@ -10,7 +10,8 @@
   conclusions also say that no overflow / failed assertion / UB / contract fault happens.
 -/
 import BumpProof.Lemmas.GeomReserve
-import BumpProof.Lemmas.GeomNoFault
+import BumpProof.Lemmas.GeomNoFault2
+import BumpProof.Arena.Step
 
 namespace C10
 open Arena Rs
@@ -149,11 +150,11 @@ theorem tryCur_hint_independent (hc : CfgOK cfg) (h : GeomInv cfg s) (k : Kind) 
 theorem tryCur_inv (hc : CfgOK cfg) (h : GeomInv cfg s) {k : Kind} {L : Layout} {hints : Hints} (hL : L.Valid)
     (hh : hints.sma = true → L.align ∣ L.size) {v : Nat × Nat} {s' : State}
     (he : tryCur cfg k s L hints = .ok (some (v, s'))) :
-    GeomInv cfg s' ∧ SameShape s s' ∧ s'.cur = s.cur ∧ s'.minAlign = s.minAlign := by
+    GeomInv cfg s' ∧ SameShape s s' ∧ s'.cur = s.cur ∧ s'.minAlign = s.minAlign ∧ s'.resps = s.resps := by
   rw [Arena.tryCur_eq hc h k hL hh] at he
   have he' : tryCurSpec cfg k s L = some (v, s') := by injection he
-  obtain ⟨g1, g2, g3, g4, _, _⟩ := tryCurSpec_inv hc h hL he'
-  exact ⟨g1, g2, g3, g4⟩
+  obtain ⟨g1, g2, g3, g4, g5, _⟩ := tryCurSpec_inv hc h hL he'
+  exact ⟨g1, g2, g3, g4, g5⟩
 
 /-- a claimed / unallocated arena serves nothing from its current (dummy) chunk -/
 theorem tryCur_dummy (hc : CfgOK cfg) (h : GeomInv cfg s) (hcur : s.cur = .claimed ∨ s.cur = .unallocated)
@@ -327,10 +328,10 @@ example : BaseOK exCfg exState { size := 100, align := 8 } := by
 
 theorem deallocAssumeLast_inv (hc : CfgOK cfg) (h : GeomInv cfg s) {ptr size : Nat} (hb : BlockInCur cfg s ptr size)
     {s' : State} (he : deallocAssumeLast cfg s ptr size = .ok s') :
-    GeomInv cfg s' ∧ SameShape s s' ∧ s'.cur = s.cur ∧ s'.minAlign = s.minAlign := by
-  obtain ⟨s1, e1, e2, e3, e4, e5, _⟩ := deallocAssumeLast_ok hc h hb
+    GeomInv cfg s' ∧ SameShape s s' ∧ s'.cur = s.cur ∧ s'.minAlign = s.minAlign ∧ s'.resps = s.resps := by
+  obtain ⟨s1, e1, e2, e3, e4, e5, e6, _⟩ := deallocAssumeLast_ok hc h hb
   rw [e1] at he; cases he
-  exact ⟨e2, e3, e4, e5⟩
+  exact ⟨e2, e3, e4, e5, e6⟩
 
 theorem deallocAssumeLast_noFault (hc : CfgOK cfg) (h : GeomInv cfg s) {ptr size : Nat} (hb : BlockInCur cfg s ptr size) :
     ∃ s', deallocAssumeLast cfg s ptr size = .ok s' := by
@@ -341,10 +342,10 @@ theorem deallocAssumeLast_noFault (hc : CfgOK cfg) (h : GeomInv cfg s) {ptr size
 theorem deallocate_inv (hc : CfgOK cfg) (h : GeomInv cfg s) {ptr size : Nat}
     (hb : isLast cfg s ptr size = true → BlockInCur cfg s ptr size)
     {s' : State} (he : deallocate cfg s ptr size = .ok s') :
-    GeomInv cfg s' ∧ SameShape s s' ∧ s'.cur = s.cur ∧ s'.minAlign = s.minAlign := by
-  obtain ⟨s1, e1, e2, e3, e4, e5, _⟩ := deallocate_ok hc h hb
+    GeomInv cfg s' ∧ SameShape s s' ∧ s'.cur = s.cur ∧ s'.minAlign = s.minAlign ∧ s'.resps = s.resps := by
+  obtain ⟨s1, e1, e2, e3, e4, e5, e6⟩ := deallocate_ok hc h hb
   rw [e1] at he; cases he
-  exact ⟨e2, e3, e4, e5⟩
+  exact ⟨e2, e3, e4, e5, e6⟩
 
 theorem deallocate_noFault (hc : CfgOK cfg) (h : GeomInv cfg s) {ptr size : Nat}
     (hb : isLast cfg s ptr size = true → BlockInCur cfg s ptr size) :
@@ -357,10 +358,10 @@ example : BlockInCur exCfg exState (0x10000 + 32) 40 :=
 
 theorem resetTo_inv (hc : CfgOK cfg) (h : GeomInv cfg s) {cp : Checkpoint} (hcp : CheckpointOK cfg s cp)
     {s' : State} (he : resetTo cfg s cp = .ok s') :
-    GeomInv cfg s' ∧ SameShape s s' ∧ s'.minAlign = s.minAlign := by
-  obtain ⟨s1, e1, e2, e3, e4, _⟩ := resetTo_ok hc h hcp
+    GeomInv cfg s' ∧ SameShape s s' ∧ s'.minAlign = s.minAlign ∧ s'.resps = s.resps := by
+  obtain ⟨s1, e1, e2, e3, e4, e5, _⟩ := resetTo_ok hc h hcp
   rw [e1] at he; cases he
-  exact ⟨e2, e3, e4⟩
+  exact ⟨e2, e3, e4, e5⟩
 
 theorem resetTo_noFault (hc : CfgOK cfg) (h : GeomInv cfg s) {cp : Checkpoint} (hcp : CheckpointOK cfg s cp) :
     ∃ s', resetTo cfg s cp = .ok s' := by
@@ -386,10 +387,10 @@ theorem resetToStart_inv (hc : CfgOK cfg) (h : GeomInv cfg s) :
     new minimum alignment -/
 theorem alignTo_inv (hc : CfgOK cfg) (h : GeomInv cfg s) {n : Nat} (hn : MinAlignOK n)
     {s' : State} (he : alignTo cfg s n = .ok s') :
-    GeomInv cfg s' ∧ GeomInv cfg { s' with minAlign := n } ∧ SameShape s s' ∧ s'.cur = s.cur := by
-  obtain ⟨s1, e1, e2, e3, e4, e5, _⟩ := alignTo_ok hc h hn
+    GeomInv cfg s' ∧ GeomInv cfg { s' with minAlign := n } ∧ SameShape s s' ∧ s'.cur = s.cur ∧ s'.resps = s.resps := by
+  obtain ⟨s1, e1, e2, e3, e4, e5, _, e7, _⟩ := alignTo_ok hc h hn
   rw [e1] at he; cases he
-  exact ⟨e2, e3, e4, e5⟩
+  exact ⟨e2, e3, e4, e5, e7⟩
 
 theorem alignTo_noFault (hc : CfgOK cfg) (h : GeomInv cfg s) {n : Nat} (hn : MinAlignOK n) :
     ∃ s', alignTo cfg s n = .ok s' := by
@@ -398,10 +399,10 @@ theorem alignTo_noFault (hc : CfgOK cfg) (h : GeomInv cfg s) {n : Nat} (hn : Min
 
 theorem alignGuardDrop_inv (hc : CfgOK cfg) (h : GeomInv cfg s) {outer : Nat} (hn : MinAlignOK outer)
     {s' : State} (he : alignGuardDrop cfg s outer = .ok s') :
-    GeomInv cfg s' ∧ GeomInv cfg { s' with minAlign := outer } ∧ SameShape s s' ∧ s'.cur = s.cur := by
-  obtain ⟨s1, e1, e2, e3, e4, e5, _⟩ := alignGuardDrop_ok hc h hn
+    GeomInv cfg s' ∧ GeomInv cfg { s' with minAlign := outer } ∧ SameShape s s' ∧ s'.cur = s.cur ∧ s'.resps = s.resps := by
+  obtain ⟨s1, e1, e2, e3, e4, e5, _, e7, _⟩ := alignGuardDrop_ok hc h hn
   rw [e1] at he; cases he
-  exact ⟨e2, e3, e4, e5⟩
+  exact ⟨e2, e3, e4, e5, e7⟩
 
 theorem alignGuardDrop_noFault (hc : CfgOK cfg) (h : GeomInv cfg s) {outer : Nat} (hn : MinAlignOK outer) :
     ∃ s', alignGuardDrop cfg s outer = .ok s' := by
@@ -432,6 +433,27 @@ theorem reserveDyn_noFault (hc : CfgOK cfg) (h : GeomInv cfg s) (hr : RespsOK cf
     ∃ s' r, reserveDyn cfg s additional = .ok (s', r) :=
   (reserveDyn_ok hc h hr additional).2 hb
 
+/-! ## make_allocated, drop -/
+
+theorem makeAllocated_inv (hc : CfgOK cfg) (h : GeomInv cfg s) (hr : RespsOK cfg s)
+    {s' : State} {r : Except AErr Unit} (he : makeAllocated cfg s = .ok (s', r)) :
+    GeomInv cfg s' ∧ RespsOK cfg s' ∧ s'.minAlign = s.minAlign ∧ (r = .ok () → ∃ j, s'.cur = .chunk j) :=
+  have p := (makeAllocated_ok hc h hr).1 s' r he
+  ⟨p.1.inv, p.1.resps, p.1.minAlign, p.2⟩
+
+/-- `make_allocated` does not fault when `ChunkSize::MINIMUM` is computable (a compile-time check in
+    the crate) and the base allocator answers correctly -/
+theorem makeAllocated_noFault (hc : CfgOK cfg) (h : GeomInv cfg s) (hr : RespsOK cfg s)
+    (hb : ∀ size, Spec.calcSize cfg.up cfg.hdr cfg.minChunk = some size → HeadOK cfg s size)
+    (hmin : ∃ size, Spec.calcSize cfg.up cfg.hdr cfg.minChunk = some size) :
+    ∃ s' r, makeAllocated cfg s = .ok (s', r) :=
+  (makeAllocated_ok hc h hr).2 hb hmin
+
+example : Spec.calcSize exCfg.up exCfg.hdr exCfg.minChunk = some 496 := by decide
+
+theorem manuallyDrop_inv (h : GeomInv cfg s) : GeomInv cfg (manuallyDrop cfg s) :=
+  Arena.manuallyDrop_inv h
+
 /-! ## memory writes keep the geometry -/
 
 /-- writing bytes changes bytes only -/
@@ -448,8 +470,8 @@ theorem copyBytes_inv (h : GeomInv cfg s) {src dst len : Nat} {no : Bool} {s' : 
 
 The block argument must satisfy what the safety contract gives: if it is the last allocation
 (`isLast`) it lies in the content range of the current chunk on the allocated side of the position
-(`BlockInCur`).  Only preservation is proved here; "no fault" additionally needs the disjointness of
-the live blocks (the memory part of the invariant, C01) and is recorded as `…_target`. -/
+(`BlockInCur`).  Preservation first; the "no fault" companions follow below: they additionally need
+that chunks do not overlap (`ChunksDisjoint`, `RespsFresh`) and where the live block is (`LiveBlock`). -/
 
 theorem grow_inv (hc : CfgOK cfg) (h : GeomInv cfg s) (hr : RespsOK cfg s) {ptr oldSize : Nat}
     {newL : Layout} (hL : newL.Valid) (hb : isLast cfg s ptr oldSize = true → BlockInCur cfg s ptr oldSize)
@@ -563,20 +585,87 @@ example : ChunksDisjoint exState := by
 example : LiveBlock exCfg exState (0x10000 + 32) 40 :=
   ⟨0, 0, exChunk, rfl, Nat.le_refl _, rfl, by decide, by decide, fun _ => by decide⟩
 
-/-! ## Open targets (stated, not proved)
+/-- `grow` never faults: in particular the block obtained through the fast or the slow path never
+    overlaps the block that is moved (`copy_nonoverlapping` is sound), and the in-place paths stay inside
+    the chunk -/
+theorem grow_noFault (hc : CfgOK cfg) (h : GeomInv cfg s) (hr : RespsOK cfg s)
+    (hd : ChunksDisjoint s) (hf : RespsFresh s) {ptr oldSize : Nat} {newL : Layout} (hL : newL.Valid)
+    (hsz : oldSize ≤ newL.size) (hl : LiveBlock cfg s ptr oldSize) (hb : BaseOK cfg s newL) :
+    ∃ s' r, grow cfg s ptr oldSize newL = .ok (s', r) :=
+  Arena.grow_noFault hc h hr hd hf hL hsz hl hb
 
-"No fault" of `grow` and `shrink` additionally needs that a block obtained through the slow path
-does not overlap the old block, i.e. the memory part of the arena invariant (C01). -/
+theorem shrink_noFault (hc : CfgOK cfg) (h : GeomInv cfg s) (hr : RespsOK cfg s)
+    (hd : ChunksDisjoint s) (hf : RespsFresh s) {ptr oldSize : Nat} {newL : Layout} (hL : newL.Valid)
+    (hsz : newL.size ≤ oldSize) (hl : LiveBlock cfg s ptr oldSize) (hb : BaseOK cfg s newL) :
+    ∃ s' r, shrink cfg s ptr oldSize newL = .ok (s', r) :=
+  Arena.shrink_noFault hc h hr hd hf hL hsz hl hb
 
-def grow_noFault_target : Prop :=
-  ∀ (cfg : Cfg) (s : State) (ptr oldSize : Nat) (newL : Layout),
-    CfgOK cfg → GeomInv cfg s → RespsOK cfg s → ChunksDisjoint s → RespsFresh s → newL.Valid → oldSize ≤ newL.size →
-    LiveBlock cfg s ptr oldSize → BaseOK cfg s newL → ∃ s' r, grow cfg s ptr oldSize newL = .ok (s', r)
+theorem shrinkWithoutShrink_noFault (hc : CfgOK cfg) (h : GeomInv cfg s) (hr : RespsOK cfg s)
+    (hd : ChunksDisjoint s) (hf : RespsFresh s) {ptr oldSize : Nat} {newL : Layout} (hL : newL.Valid)
+    (hsz : newL.size ≤ oldSize) (hl : LiveBlock cfg s ptr oldSize) (hb : BaseOK cfg s newL) :
+    ∃ s' r, shrinkWithoutShrink cfg s ptr oldSize newL = .ok (s', r) :=
+  Arena.shrinkWithoutShrink_noFault hc h hr hd hf hL hsz hl hb
 
-def shrink_noFault_target : Prop :=
-  ∀ (cfg : Cfg) (s : State) (ptr oldSize : Nat) (newL : Layout),
-    CfgOK cfg → GeomInv cfg s → RespsOK cfg s → ChunksDisjoint s → RespsFresh s → newL.Valid → newL.size ≤ oldSize →
-    LiveBlock cfg s ptr oldSize → BaseOK cfg s newL → ∃ s' r, shrink cfg s ptr oldSize newL = .ok (s', r)
+example : RespsFresh exState := by
+  refine ⟨by simp [exState], ?_⟩
+  intro p g hm i c hc
+  simp [exState] at hm
+  obtain ⟨rfl, rfl⟩ := hm
+  match i, hc with
+  | 0, hc => simp [exState] at hc; subst hc; decide
+  | 1, hc => simp [exState] at hc; subst hc; decide
+  | n+2, hc => simp [exState] at hc
+
+/-! ## Chunks stay disjoint
+
+`Trace s s'` (in `Lemmas/GeomNew.lean`) records how the chunk list and the pending responses evolve:
+nothing new up to positions/bytes (possibly a refusal consumed), or exactly one new chunk inside the
+block just granted.  Every post-condition above carries it (`SlowPost.trace`, …); along a `Trace`
+chunk disjointness and freshness of the pending responses are preserved. -/
+
+theorem trace_disjoint {s' : State} (t : Trace s s') (hd : ChunksDisjoint s) (hf : RespsFresh s) :
+    ChunksDisjoint s' ∧ RespsFresh s' :=
+  t.disjoint hd hf
+
+/-- position-only updates -/
+theorem sameShape_disjoint {s' : State} (hsh : SameShape s s') (hd : ChunksDisjoint s) : ChunksDisjoint s' :=
+  hsh.disjoint hd
+
+theorem alloc_trace (hc : CfgOK cfg) (h : GeomInv cfg s) (hr : RespsOK cfg s) {L : Layout} (hL : L.Valid)
+    {s' : State} {r : Except AErr Nat} (he : alloc cfg s L = .ok (s', r)) : Trace s s' :=
+  (alloc_inv hc h hr hL he).trace
+
+theorem grow_trace (hc : CfgOK cfg) (h : GeomInv cfg s) (hr : RespsOK cfg s) {ptr oldSize : Nat}
+    {newL : Layout} (hL : newL.Valid) (hb : isLast cfg s ptr oldSize = true → BlockInCur cfg s ptr oldSize)
+    {s' : State} {r : Except AErr Nat} (he : grow cfg s ptr oldSize newL = .ok (s', r)) : Trace s s' :=
+  (grow_post hc h hr hL hb he).trace
+
+theorem shrink_trace (hc : CfgOK cfg) (h : GeomInv cfg s) (hr : RespsOK cfg s) {ptr oldSize : Nat}
+    {newL : Layout} (hL : newL.Valid) (hb : isLast cfg s ptr oldSize = true → BlockInCur cfg s ptr oldSize)
+    {s' : State} {r : Except AErr (Nat × Nat)} (he : shrink cfg s ptr oldSize newL = .ok (s', r)) : Trace s s' :=
+  (shrink_post hc h hr hL hb he).trace
+
+theorem reserve_trace (hc : CfgOK cfg) (h : GeomInv cfg s) (hr : RespsOK cfg s) {additional : Nat}
+    {s' : State} {r : Except AErr Unit} (he : reserve cfg s additional = .ok (s', r)) : Trace s s' :=
+  ((reserve_ok hc h hr additional).1 s' r he).trace
+
+theorem reset_disjoint (hd : ChunksDisjoint s) : ChunksDisjoint (reset cfg s) :=
+  Arena.reset_disjoint hd
+
+/-! ## the initial state -/
+
+/-- the state every history starts from satisfies all the invariants of this file -/
+theorem initState_inv (hc : CfgOK cfg) :
+    GeomInv cfg (initState cfg) ∧ SizesIncreasing (initState cfg) ∧ UnallocEmpty (initState cfg) ∧
+      ChunksDisjoint (initState cfg) := by
+  refine ⟨⟨?_, hc.minAlign0, ?_⟩, ?_, fun _ => rfl, ?_⟩
+  · intro i c hi; simp [initState] at hi
+  · intro i hi; simp [initState] at hi
+  · intro i a b ha _; simp [initState] at ha
+  · intro i j a b _ ha _; simp [initState] at ha
+
+example : CfgOK exCfg := exCfg_ok
+example : CfgOK exCfgDown := exCfgDown_ok
 
 example : GeomInv exCfg exState := exState_inv
 example : GeomInv exCfgDown exStateDown := exStateDown_inv
